@@ -40,8 +40,14 @@ def check(rep, f, prefix):
     body = ms[hdr[0] + 1]
     c = tu.cooked(body["fmt"])
     args = " ".join(a["expr"] for a in body["args"])
-    ok = re.search(r"action\(state,\s*·0·\)", c) is not None and re.search(r"terminals\s*\.\s*all\s*\.\s*len\s*\(\s*\)", args) is not None \
-        and re.search(r'"\{\}\s*-\s*1"', args) is not None
+    ok = re.search(r"action\(state,\s*·0·\)", c) is not None and bool(body["args"])
+    if ok:
+        # abstractly evaluate the generator expression for the column: for every terminal count n the emitted
+        # Rust expression must denote n - 1
+        for n in (1, 2, 3, 4, 7, 40):
+            v = eval_column_expr(body["args"][0]["expr"], n)
+            if v != n - 1:
+                ok = False
     rep.ob(prefix + "error_action-reads-last-column", tu.short(body) + " " + c.strip(), ok,
            "error_action does not read the last terminal column (terminals.all.len() - 1): %s | %s" % (c.strip(), args[:160]),
            key="error_action-column", file=body["file"], line=body["line"], fn=body["fn"])
@@ -63,3 +69,107 @@ def _has_error(body, op, err_aggs):
     """does the operand's provenance (through calls and aggregates) include the Error aggregate?"""
     o = origins(body, op, transparent=lambda c: "all" if c else None, through_agg=False)
     return any(d[0] == "agg" and (d[1], d[2]) in err_aggs for d in o)
+
+
+LEN = r"self \. grammar \. terminals \. all \. len \(\s*\)"
+
+
+def eval_column_expr(expr, n):
+    """Evaluate the (syntax of the) generator expression that renders the error column, with
+    `self.grammar.terminals.all.len()` = n; returns the integer denoted by the rendered Rust
+    expression, or None when the expression is not understood."""
+    e = re.sub(LEN, " LEN ", expr)
+    toks = re.findall(r'"(?:[^"\\]|\\.)*"|[A-Za-z_][A-Za-z_0-9]*|\d+|==|!=|<=|>=|[{}()!,.<>+\-*]', e)
+    pos = [0]
+
+    def peek():
+        return toks[pos[0]] if pos[0] < len(toks) else None
+
+    def eat(x=None):
+        t = peek()
+        if x is not None and t != x:
+            raise ValueError("expected %s got %s" % (x, t))
+        pos[0] += 1
+        return t
+
+    def atom():
+        t = peek()
+        if t == "if":
+            eat()
+            a = atom()
+            op = eat()
+            b = atom()
+            cond = {"==": a == b, "!=": a != b, "<=": a <= b, ">=": a >= b, "<": a < b, ">": a > b}[op]
+            eat("{")
+            x = value()
+            eat("}")
+            eat("else")
+            eat("{")
+            y = value()
+            eat("}")
+            return x if cond else y
+        if t == "LEN":
+            eat()
+            return n
+        if t is not None and t.isdigit():
+            return int(eat())
+        if t is not None and t.startswith('"'):
+            eat()
+            sv = t[1:-1]
+            while peek() == ".":
+                eat()
+                m = eat()
+                if m not in ("to_string", "to_owned", "into"):
+                    raise ValueError(m)
+                eat("(")
+                eat(")")
+            return sv
+        if t == "format":
+            eat()
+            eat("!")
+            eat("(")
+            fmt = eat()[1:-1]
+            args = []
+            while peek() == ",":
+                eat()
+                if peek() == ")":
+                    break
+                args.append(value())
+            eat(")")
+            out = fmt
+            for a in args:
+                out = out.replace("{}", str(a), 1)
+            return out
+        if t == "(":
+            eat()
+            v = value()
+            eat(")")
+            return v
+        raise ValueError(t)
+
+    def value():
+        v = atom()
+        while peek() in ("-", "+"):
+            op = eat()
+            w = atom()
+            v = v - w if op == "-" else v + w
+        while peek() == ".":
+            eat()
+            m = eat()
+            if m != "to_string":
+                raise ValueError(m)
+            eat("(")
+            eat(")")
+            v = str(v)
+        return v
+
+    try:
+        r = value()
+        if pos[0] != len(toks):
+            return None
+        r = str(r)
+        if not re.fullmatch(r"[\d\s+\-*()]+", r):
+            return None
+        return int(eval(r, {"__builtins__": {}}, {}))
+    except Exception:
+        return None
